@@ -143,6 +143,12 @@ func CheckLDAPConnection(u url.URL, timeoutSecs uint, rootCAs *x509.CertPool) er
 
 func CheckLDAPUserPassword(u url.URL, bindDN string, bindPassword string, timeoutSecs uint, rootCAs *x509.CertPool) (bool, error) {
 	timeout := time.Duration(time.Duration(timeoutSecs) * time.Second)
+	// A simple bind with a DN and an empty password is an "unauthenticated
+	// bind" (RFC 4513 section 5.1.2): many directories answer it with success
+	// without authenticating anybody. It must never count as a valid password.
+	if bindPassword == "" {
+		return false, nil
+	}
 	conn, server, err := getLDAPConnection(u, timeoutSecs, rootCAs)
 	if err != nil {
 		return false, err
